@@ -888,7 +888,7 @@ def regex_backtracking(rep: C.Report) -> None:
                     x = z3.String("x")
                     sol = z3.Solver()
                     sol.set("timeout", 30000)
-                    sol.add(z3.InRe(x, B), z3.InRe(x, z3.Concat(B, z3.Plus(B))), z3.Length(x) > 0)
+                    sol.add(z3.InRe(x, B), z3.InRe(x, z3.Concat(B, z3.Plus(B))), z3.Length(x) > 0, z3.InRe(x, R.well_placed_marks()))
                     t0 = time.time()
                     r = str(sol.check())
                     ob.solver_s += time.time() - t0
